@@ -101,6 +101,12 @@ PROPS["C03"] = dict(
 )
 
 PROPS["C20"] = dict(
+    registered=True,
+    level_text="Kernel-checked theorem C20_membership: for every batch size and every sequence of Add / Flush / flush+reopen (any repeats, order, flush pattern) followed by a flush, "
+               "no operation fails, the file stays sorted with a fan-out table consistent with its entries, Has answers true exactly for the added hashes (no false negative or positive), "
+               "and a reopened handle answers alike. Correspondence: every return value and the raw file image after every flush equal the model's on generated sequences over colliding hashes.",
+    level_note=LEVEL_NOTE + "addToHashTable's in-place shifting of 16-byte records is modelled by its net effect (insert each pending hash at its lower-bound offset); "
+               "that this is what the byte shuffling does is checked by comparing raw file images, not proved.",
     lean_modules=["WrglModel.Props.C20"],
     quick_n=400, thorough_n=8000,
     rule="Add/Flush/Has/reopen sequences (5..35 ops quick, ..85 thorough, then a full membership sweep before and after reopen) over 6..15 "
